@@ -787,6 +787,12 @@ func ioWorker(tier string, master uint64, from, to int, maxWall time.Duration, r
 		st.Runs++
 		var rd uint64
 		for ci := 0; ci < len(cases); ci++ {
+			if maxWall > 0 && time.Since(start) > maxWall+45*time.Second {
+				// one workload must not hold the check up (a changed jpgo may be quadratic in
+				// the input size): the remaining plans of this workload are dropped
+				st.Truncated = true
+				break
+			}
 			c := &cases[ci]
 			rep := runIOCase(c)
 			if ci == 0 && len(lastEnvAsked) > 0 && len(c.Env) == 0 {
